@@ -264,6 +264,39 @@ fn negative<H: Hasher>(st: &mut State, c: &Ctx<H>, rng: &mut Rng, idx: &[usize],
         let mut more = idx.to_vec();
         more.push(cand);
         must_reject(st, c, "position-added", &more, proof);
+        // a position claimed together with a leaf for it (made up, or even the committed one), the node vectors
+        // left as they are: to the right of every opened position, to the left, next to an opened one, anywhere
+        let mut cands: Vec<usize> = vec![cand];
+        for x in [n - 1, n - 2, 0, 1, idx[0] ^ 1, idx[idx.len() - 1] ^ 1, (idx[0] ^ 2) % n, n / 2] {
+            if x < n && !idx.contains(&x) && !cands.contains(&x) {
+                cands.push(x);
+            }
+        }
+        for x in cands {
+            for committed in [false, true] {
+                let mut m = rebuild(proof);
+                m.leaves.push(if committed { c.all[x] } else { c.all[(x + 1) % n] });
+                let mut pos = idx.to_vec();
+                pos.push(x);
+                must_reject(st, c, if committed { "position+committed-leaf-added" } else { "position+made-up-leaf-added" }, &pos, &m);
+                // and in front of the list
+                let mut m2 = rebuild(proof);
+                m2.leaves.insert(0, if committed { c.all[x] } else { c.all[(x + 1) % n] });
+                let mut pos2 = vec![x];
+                pos2.extend_from_slice(idx);
+                must_reject(st, c, if committed { "position+committed-leaf-added" } else { "position+made-up-leaf-added" }, &pos2, &m2);
+            }
+        }
+    }
+    if idx.len() > 1 {
+        // a position dropped together with its leaf
+        for k in [0, idx.len() - 1] {
+            let mut m = rebuild(proof);
+            m.leaves.remove(k);
+            let mut pos = idx.to_vec();
+            pos.remove(k);
+            must_reject(st, c, "position+leaf-removed", &pos, &m);
+        }
     }
     st.count(&format!("{}.mutated_openings", c.hname));
 }
@@ -514,7 +547,7 @@ fn main() {
         require.push((format!("mutants.{m}"), 100));
     }
     run.finish(Finish {
-        rule: "trees of depth 1..4: every non-empty subset of positions (sorted order; Blake3_256 always depth 4 = 65535 subsets, other hashers depth 3 in quick / 4 in thorough); depth <= 3: every order of every subset of 2..6 positions; depths 5..12 sampled (adjacent pairs/cousins, all-left, all-right, 1..255 random positions, shuffled orders). Per opening: verifies, get_root = naive root, claimed leaves, into_paths = naive paths and each verifies, from_paths(into_paths) = opening, node wire format round trip. Mutants (every 16th subset in quick, all in thorough): each leaf/node replaced, leaf swapped for another committed leaf, node vectors truncated/extended/removed/appended/moved, leaves truncated/extended, depth in {0,d-1,d+1,d+2,62..65,128,255}, positions duplicated/permuted/truncated/out of range/changed/added: each must return Err (not Ok, not panic), in verify_batch and into_paths; single paths of every length 0..depth+3. distinct = distinct (hasher, tree, position list)".into(),
+        rule: "trees of depth 1..4: every non-empty subset of positions (sorted order; Blake3_256 always depth 4 = 65535 subsets, other hashers depth 3 in quick / 4 in thorough); depth <= 3: every order of every subset of 2..6 positions; depths 5..12 sampled (adjacent pairs/cousins, all-left, all-right, 1..255 random positions, shuffled orders). Per opening: verifies, get_root = naive root, claimed leaves, into_paths = naive paths and each verifies, from_paths(into_paths) = opening, node wire format round trip. Mutants (every 16th subset in quick, all in thorough): each leaf/node replaced, leaf swapped for another committed leaf, node vectors truncated/extended/removed/appended/moved, leaves truncated/extended, depth in {0,d-1,d+1,d+2,62..65,128,255}, positions duplicated/permuted/truncated/out of range/changed/added, positions added or removed together with a leaf (made-up or committed; right of / left of / next to the opened positions): each must return Err (not Ok, not panic), in verify_batch and into_paths; single paths of every length 0..depth+3. distinct = distinct (hasher, tree, position list)".into(),
         assumptions: vec!["naive tree recomputed with the Hasher API (hash functions themselves monitored by C11)".into(), "accidental acceptance of a mutant requires a hash collision".into()],
         exhaustive: true,
         require,
